@@ -27,20 +27,22 @@ def parseDefines (s : String) : Option (List (String × Int)) :=
       | _, _ => none
     | _ => none
 
-def showOutcome : Outcome → String
+def showOutcome (files : Array FileRec) : Outcome → String
   | .ok w l tr _ => s!"ok W={showWrites w} L={showLabels l} T={showTrace tr}"
   | .errorString k f l c q => s!"error {k} {hexOfText f} {l} {c} {hexOfText q}"
   | .raised e =>
     match e with
-    | .nodeAt msg f l => s!"raised NodeError {msg} {f} {l}"
-    | .node msg l => s!"raised NodeError {msg} - {l}"
+    | .nodeAt msg f l =>
+      let fr := files.getD f default
+      s!"raised NodeError {msg} {hexOfText fr.name} {l} {hexOfText (fr.lines.getD l.toNat "")}"
+    | .node msg l => s!"raised NodeError {msg} - {l} -"
     | e => "raised " ++ e.tag
 
 def handleAsm (ws : List String) : Option String :=
   match ws with
   | ["asm", rom, defs, text, bin, src] =>
     match romOfName rom, parseDefines defs, parseFS text bin, textOfHex src with
-    | some rom, some defs, some fs, some s => some (showOutcome (assemble genTables rom fs "main.s" defs s))
+    | some rom, some defs, some fs, some s => some (showOutcome (fileTable fs "main.s" s) (assemble genTables rom fs "main.s" defs s))
     | _, _, _, _ => some "bad-op"
   | _ => none
 
